@@ -15,13 +15,13 @@ LEVEL = "exploration"
 RULE = (
     "case = (k consecutive transient failures, k in 0..13 and 'always') x (with / without context_update) x (task first / "
     "middle / last of a 1-3 task stage) x (FIFO / shuffled delivery with withheld acks), plus polling tasks with n in "
-    "0..5 polls; plus 1-8 transient failures and 1-12 polls of ONE task mixed in random order (polls must not eat the retry "
+    "0..5 polls; plus two transiently failing tasks in ONE stage (3-8 failures each: each task has its own budget); plus 1-8 transient failures and 1-12 polls of ONE task mixed in random order (polls must not eat the retry "
     "budget); plus the transient / polling result racing another worker's committed write to the same stage row "
     "(persistent signal being buffered) at statement granularity. The ledger gives the number of executions and the context each attempt saw. Non-trivial = k>=1 or n>=1; "
     "distinct = (kind, k, cu, position, ntasks, order class)."
 )
 ASSUMPTIONS = ["SQLite backend", "limit = Message.max_attempts (10); executions beyond max_attempts+1 = 11 count as a broken bound (generous to either reading of 'attempts')"]
-MIN_OBS = {"transient_failures_observed": {"quick": 300, "thorough": 3000}, "polls_observed": {"quick": 50, "thorough": 500}, "mixed_scripts": {"quick": 20, "thorough": 200}}
+MIN_OBS = {"transient_failures_observed": {"quick": 300, "thorough": 3000}, "polls_observed": {"quick": 50, "thorough": 500}, "mixed_scripts": {"quick": 20, "thorough": 200}, "two_flaky_stages": {"quick": 10, "thorough": 100}}
 TIMEOUT = {"quick": 600, "thorough": 3000}
 LIMIT = 10
 
@@ -59,6 +59,10 @@ def gen_cases(tier: str, seed: int) -> list[dict]:
         rng.shuffle(steps)
         ntasks = rng.randint(1, 3)
         cases.append({"kind": "mixed", "k": "".join(steps), "cu": True, "pos": rng.randrange(ntasks), "ntasks": ntasks, "order": rng.choice(["fifo", "random"]), "seed": rng.randrange(1 << 30)})
+    for rep in range(reps * 3):
+        # several flaky tasks in ONE stage: each has its own budget (k1 + k2 may exceed the limit)
+        k1, k2 = rng.randint(3, 8), rng.randint(3, 8)
+        cases.append({"kind": "two_flaky", "k": [k1, k2], "cu": rng.random() < 0.5, "pos": 0, "ntasks": 2, "order": rng.choice(["fifo", "random"]), "seed": rng.randrange(1 << 30)})
     for rkind in ("transient", "poll"):
         for nth in (0, 1):
             cases.append({"kind": "race", "rkind": rkind, "k": 3, "nth": nth, "seed": seed, "sample": 60 if tier == "quick" else 2000})
@@ -141,9 +145,30 @@ def _race(case: dict) -> dict:
     return {"violations": uniq, "obs": dict(obs), "keys": sorted(keys)}
 
 
+def _two_flaky(case: dict) -> dict:
+    k1, k2 = case["k"]
+    cu = case["cu"]
+    t = [{"kind": "transient", "n": k1, "cu": cu, "out": ["r1"]}, {"kind": "transient", "n": k2, "cu": cu, "out": ["r2"]}, {"kind": "ok", "out": ["o3"]}]
+    spec = {"name": f"twoflaky{k1}_{k2}{'cu' if cu else ''}", "confluent": True, "stages": [specs.st("a"), specs.st("b", ["a"], t), specs.st("c", ["b"])]}
+    run = delivery_run(spec, seed=case["seed"], order=case["order"], noack_p=0.2 if case["order"] == "random" else 0.0, max_steps=260)
+    obs: Counter = Counter({"evaluations": 1, "two_flaky_stages": 1})
+    out = []
+    b = run.state["stages"]["b"]
+    for pos, k in ((0, k1), (1, k2)):
+        recs = [r for r in run.ledger if r["ref"] == "b" and r["task"] == pos]
+        obs["transient_failures_observed"] += sum(1 for r in recs if str(r.get("result", "")).startswith("raise:"))
+        if len(recs) != k + 1 or b["tasks"][pos][1] != "SUCCEEDED":
+            out.append(viol("C14/budget-shared-between-tasks-of-a-stage", f"tasks of one stage fail transiently {k1} and {k2} times (each below the limit of {LIMIT}): task {pos} executed {len(recs)} times (expected {k + 1}) and ended {b['tasks'][pos][1]}; stage {b['status']}, workflow {run.state['wf']}"))
+    if run.state["wf"] != "SUCCEEDED" and not out:
+        out.append(viol("C14/retry-did-not-complete", f"workflow {run.state['wf']}, stage b {b}"))
+    return {"violations": out, "obs": dict(obs), "keys": [f"twoflaky:{k1}:{k2}:{cu}:{case['order']}"]}
+
+
 def run_case(case: dict) -> dict:
     if case.get("kind") == "race":
         return _race(case)
+    if case.get("kind") == "two_flaky":
+        return _two_flaky(case)
     spec = _spec(case["kind"], case["k"], case["cu"], case["pos"], case["ntasks"])
     k = case["k"]
     noack = 0.25 if case["order"] == "random" else 0.0
